@@ -1,6 +1,7 @@
 import Mkdb.Driver.LRU
 import Mkdb.Driver.Page
 import Mkdb.Driver.Tuple
+import Mkdb.Driver.Sql
 open Mkdb.Driver
 
 def main (args : List String) : IO UInt32 := do
@@ -13,4 +14,6 @@ def main (args : List String) : IO UInt32 := do
   | ["judge", "page"] => judgeLoop stdin stdout "?" Page.judgeLine; return 0
   | ["model", "tuple"] => modelLoop stdin stdout ({} : Tuple.St) Tuple.stepLine; return 0
   | ["judge", "tuple"] => judgeLoop stdin stdout ({} : Tuple.J) Tuple.judgeLine; return 0
+  | ["model", "sql"] => modelLoop stdin stdout () Sql.stepLine; return 0
+  | ["judge", "sql"] => judgeLoop stdin stdout ({} : Sql.J) Sql.judgeLine; return 0
   | _ => IO.eprintln "usage: mkdbdrv model|judge <proto>"; return 2
